@@ -735,23 +735,35 @@ def _holds_same_memento(ck, cm, e, positive, mem, depth=0) -> bool:
     if isinstance(e, ast.Call) and positive and depth < 2 and isinstance(e.func, ast.Attribute) and isinstance(e.func.value, ast.Name) \
             and e.func.value.id == "self" and e.func.attr in cm.cls.methods:
         m = cm.cls.methods[e.func.attr]
-        rets = [s_ for s_ in A.all_stmts(m.node) if isinstance(s_, ast.Return)]
-        if len(rets) != 1 or rets[0].value is None:
+        if any(isinstance(n, (ast.Yield, ast.YieldFrom)) for n in A.walk_body(m.node)):
             return False
         bound = _bind(e, m.params)
         prm = [p_ for p_ in m.params if p_ != "self"]
         hit = [p_ for p_ in prm if p_ in bound and A.norm(bound[p_]) == mem]
         if len(hit) != 1:
             return False
-        try:
-            body = FA(ck, m).expand(rets[0].value)
-        except AnalysisError:
+        fm = FA(ck, m)
+        rets = [r for r in fm.returns() if fm.nodes(r)]
+        if not rets:
             return False
-        return _holds_same_memento(ck, cm, copy.deepcopy(body), True, hit[0], depth + 1)
+        # the call is true only where a return hands out something truthy: each such return either returns a value that
+        # establishes the fact, or is reached only on ways that have established it (guard-clause form)
+        for r in rets:
+            if r.value is None or (isinstance(r.value, ast.Constant) and not r.value.value):
+                continue
+            try:
+                body = fm.expand(r.value)
+            except AnalysisError:
+                return False
+            if _holds_same_memento(ck, cm, copy.deepcopy(body), True, hit[0], depth + 1):
+                continue
+            if not _reached_only_holding(ck, cm, fm, r, hit[0], "", depth + 1):
+                return False
+        return True
     return False
 
 
-def _reached_only_holding(ck, cm, fa: FA, target, mem, layer_prefix) -> bool:
+def _reached_only_holding(ck, cm, fa: FA, target, mem, layer_prefix, depth=0) -> bool:
     """every way to `target` takes a branch edge that establishes that the cache holds `mem` for its call (the literals of
     FA.conditions: nesting, guard clauses, negations, temporaries and conjunctions are normalised away); `layer_prefix`:
     how the cache is named in this function ('' inside the cache, 'self._memory_cache.' in the backend)"""
@@ -767,7 +779,7 @@ def _reached_only_holding(ck, cm, fa: FA, target, mem, layer_prefix) -> bool:
         if (t, p) not in memo:
             txt = t.replace(layer_prefix, "self.") if layer_prefix else t
             try:
-                memo[(t, p)] = _holds_same_memento(ck, cm, ast.parse(txt, mode="eval").body, p, mem)
+                memo[(t, p)] = _holds_same_memento(ck, cm, ast.parse(txt, mode="eval").body, p, mem, depth)
             except SyntaxError:
                 memo[(t, p)] = False
         return memo[(t, p)]
